@@ -101,7 +101,13 @@ def level_records(run):
     for fn in ('contrived.bufr', 'jaso_214.bufr', 'mpco_217.bufr'):
         with open(os.path.join(REPO, 'tests', 'data', fn), 'rb') as f:
             msgs.append((fn, Decoder().process(f.read())))
-    queries = {'generated': ['/001001', '/104000/012001', '/104000/102002/002001', '012001', '/104000.031001', '@[0]/104000/012001', '@[1:]/001001', '/104000/102002/011003[0]', '/001015'],
+    # the same subsets in another order (the first subset has no repetition at all), and every base path under every
+    # subset selector: which subsets contribute - and which is the FIRST to contribute - varies with both
+    msgs.append(('generated-empty-first', Decoder().process(Encoder().process(pyb.flat_json(4, ids, 3, False, [subs[1], subs[2], subs[0]])).serialized_bytes)))
+    base = ['/001001', '/104000/012001', '/104000/102002/002001', '012001', '/104000.031001', '/104000/102002/011003[0]', '/001015']
+    sels = ['', '@[0]', '@[1]', '@[2]', '@[1:]', '@[:2]', '@[::-1]', '@[-1]', '@[::2]']
+    crossed = [sel + (' > ' + b if sel and not b.startswith('/') else b) for b in base for sel in sels]
+    queries = {'generated': crossed, 'generated-empty-first': crossed,
                'generated-cmp': ['/001001', '/102002/012001', '002001', '@[-1]/102002/002001'],
                'contrived.bufr': ['001002', '/301001/001001'], 'jaso_214.bufr': ['/312041/005001', '001007', '@[0:2]/312041/021128'],
                'mpco_217.bufr': ['/005001', '011001', '/116000/010004']}
